@@ -218,6 +218,10 @@ def record_trace(args):
 
 
 # ------------------------------------------------------------------ query mutations
+RELAY = {'none': '', 'amp': 'relay &Signature=x', 'space': 'two words', 'tilde': 'a~b', 'unreserved': 'a-b._c',
+         'unicode': u'r\u00e9 \u4e2d'}
+
+
 def query_case(case):
     from saml2_tophat.pack import http_redirect_message
     from saml2_tophat.sigver import RSACrypto, verify_redirect_signature
@@ -225,7 +229,7 @@ def query_case(case):
     scn = case['scn']
     signer_crypto = RSACrypto(_STATE['keys']['kA'])
     verifier = RSACrypto(_STATE['keys']['kB'])
-    relay = 'relay &Signature=x' if scn['relay'] else ''
+    relay = RELAY[scn['relay']]
 
     def signed(msg):
         info = http_redirect_message(msg, DEST, relay_state=relay, typ=scn['typ'], sigalg=ALG[scn['alg']],
@@ -233,8 +237,7 @@ def query_case(case):
         return dict(info['headers'])['Location']
 
     url = signed('<message id="1">content</message>')
-    if actual_key(url) != 'kA':
-        return {'observed': 'control', 'detail': 'control URL is not signed with the requester key'}
+    wire = actual_key(url)
     q = query_dict(url)
     other_typ = 'SAMLResponse' if scn['typ'] == 'SAMLRequest' else 'SAMLRequest'
     mut = scn['mut']
@@ -243,7 +246,7 @@ def query_case(case):
     elif mut == 'msg_removed':
         del q[scn['typ']]
     elif mut in ('relay_changed', 'relay_added'):
-        if scn['relay'] or mut == 'relay_added':
+        if scn['relay'] != 'none' or mut == 'relay_added':
             q['RelayState'] = 'relay &Signature=y'
     elif mut == 'relay_removed':
         q.pop('RelayState', None)
@@ -273,7 +276,7 @@ def query_case(case):
         obs = 'true' if res else ('none' if res is None else 'false')
     except Exception as exc:
         obs = 'exception'
-    return {'observed': obs}
+    return {'observed': obs, 'wire': wire}
 
 
 def main():
@@ -320,14 +323,21 @@ def main():
     chk.add_tlc(res, 'RedirectQuery.cfg')
     if res.violated:
         raise fw.Machinery('RedirectQuery.tla violates its contract: %s' % res.violated)
+    pinned = tlc.run('RedirectQuery.tla', 'RedirectQuery_pinned.cfg', timeout=600, coverage=False)
+    chk.add_tlc(pinned, 'RedirectQuery_pinned.cfg (verifier re-encodes with another encoder: expected counterexample)')
+    if pinned.violated != 'Contract':
+        raise fw.Machinery('vacuity control failed: the two-encoder design should violate the contract')
     chk.sample({'kind': 'query case', 'case': res.cases[7]})
     for case, r, err in fw.pmap(query_case, res.cases, init=_init, chunk=16):
         if err:
             raise fw.Machinery(err)
-        if r['observed'] == 'control':
-            raise fw.Machinery('control failed: %s %s' % (r['detail'], case['scn']))
         chk.count(case['scn'], nontrivial=case['mustVerify'] or case['mustNotVerify'])
-        if case['mustVerify'] and r['observed'] != 'true':
+        if case['wireKeyOwn'] and r['wire'] != 'kA':
+            # independent verifier over the octets as transmitted (saml-bindings 3.4.4.1)
+            chk.violation(dict(case['scn'], kind='wire', mut='', cert=''), 'the signature in the emitted redirect URL does not verify over the transmitted query '
+                          'under the signer\'s certificate (verifies under: %s; RelayState class %s)' % (r['wire'], case['scn']['relay']),
+                          {'case': case, 'observed': r})
+        elif case['mustVerify'] and r['observed'] != 'true':
             chk.violation(dict(case['scn'], kind='query'), 'correctly signed redirect query does not verify under the signer\'s certificate (%s)' % r['observed'],
                           {'case': case, 'observed': r})
         elif case['mustNotVerify'] and r['observed'] == 'true':
